@@ -468,7 +468,37 @@ def rule_R2(src, ed, lo, hi, fname):
         i += 1
 
 
-RULES = {"R2": rule_R2, "R9": rule_R9, "R1": rule_R1, "R3": rule_R3, "R7": rule_R7, "R8": rule_R8, "R10": rule_R10}
+def rule_R12(src, ed, lo, hi, fname):
+    """integer-to-float casts this Verus rejects: `X as f64` -> `__as_f64(X)` for X a place / call
+    chain or a parenthesised expression (the wrapper's body IS the cast)."""
+    toks = src.toks
+    for i in range(lo + 1, hi - 1):
+        if _skipped(i):
+            continue
+        if toks[i].kind == "ident" and toks[i].text == "as" and toks[i + 1].text == "f64":
+            s0 = _chain_start(src, i, lo)
+            if s0 >= i:
+                raise Undecided("R12: unsupported cast operand in %s" % fname)
+            operand = src.text[toks[s0].pos:toks[i - 1].end]
+            ed.insert(toks[s0].pos, "__as_f64(", order=2, rule="R12 %s: `%s as f64`" % (fname, operand))
+            ed.replace(toks[i - 1].end, toks[i + 1].end, ")")
+
+
+def rule_R13(src, ed, lo, hi, fname):
+    """`self.FIELD <cmp> E` (f64 field of a struct read through `self` and compared): the field read is
+    passed through the identity wrapper `__idf` -- this Verus does not attach the f64 typing fact to
+    struct-field reads, so its comparison axioms would not apply (measured); `__idf(x)` returns x."""
+    toks = src.toks
+    for i in range(lo, hi - 3):
+        if _skipped(i):
+            continue
+        if toks[i].text == "self" and toks[i + 1].text == "." and toks[i + 2].kind == "ident" \
+                and toks[i + 3].text in ("==", "!=", "<", ">", "<=", ">=") and (i == lo or toks[i - 1].text not in (".", "&")):
+            ed.insert(toks[i].pos, "__idf(", order=2, rule="R13 %s: `self.%s %s ..`" % (fname, toks[i + 2].text, toks[i + 3].text))
+            ed.insert(toks[i + 2].end, ")", order=-2)
+
+
+RULES = {"R13": rule_R13, "R12": rule_R12, "R2": rule_R2, "R9": rule_R9, "R1": rule_R1, "R3": rule_R3, "R7": rule_R7, "R8": rule_R8, "R10": rule_R10}
 SKIP = []  # token ranges (s, e) in which rules must not fire (abstracted statements)
 
 
@@ -579,7 +609,7 @@ def extract_fn(src, loc, spec, ed):
             apply_slice(src, ed, loops_all[k]["open"], loops_all[k]["close"], tbl, "%s loop #%d" % (name, k), spec.get("forbidden", ()))
             abstracted.append(loops_all[k])
     # body rules (not inside abstracted statements: overlapping edits are rejected by Edits.apply)
-    for r in spec.get("rules", ["R3", "R1", "R9", "R10"]):
+    for r in spec.get("rules", ["R3", "R1", "R9", "R12", "R13", "R10"]):
         RULES[r](src, ed, brace + 1, close, name)
     del SKIP[:]
     # entry text
@@ -750,7 +780,7 @@ def extract_block_as_fn(src, loc, spec, ed):
             if k >= len(depth_loops):
                 raise Undecided("lost anchor: inner loop #%d of %s" % (k, name))
             apply_slice(src, ed, depth_loops[k]["open"], depth_loops[k]["close"], tbl, "%s loop #%d" % (name, k), spec.get("forbidden", ()))
-    for r in spec.get("rules", ["R3", "R1", "R9", "R10"]):
+    for r in spec.get("rules", ["R3", "R1", "R9", "R12", "R13", "R10"]):
         RULES[r](src, ed, b_open + 1, b_close, name)
     del SKIP[:]
     if spec.get("entry"):
